@@ -279,6 +279,9 @@ impl ASN1Type {
                 .options
                 .iter_mut()
                 .try_for_each(|o| o.ty.collect_supertypes(tlds)),
+            ASN1Type::SequenceOf(ref mut s) | ASN1Type::SetOf(ref mut s) => {
+                s.element_type.collect_supertypes(tlds)
+            }
             _ => Ok(()),
         }
     }
